@@ -386,9 +386,9 @@ class Model:
             return
         pinned = {}
         for r in rows:
-            if len(r) != 4:
+            if len(r) < 4:
                 continue
-            q, ps, cs, bh = r
+            q, ps, cs, bh = r[:4]
             cont, name = q.rsplit(".", 1)
             pinned.setdefault(cont, {})[name] = (ps.split(",") if ps else [], set(cs.split(",")) if cs else set(), bh)
         current = {}
